@@ -796,6 +796,25 @@ class Executor:
             ast.fix_missing_locations(s2)
             self.loop_ord[id(s2)] = self.loop_ord[id(s)]
             return self.for_range(s2, st, k)
+        if isinstance(it, ast.Call) and isinstance(it.func, ast.Name) and it.func.id == 'reversed' and len(it.args) == 1 and not it.keywords \
+                and isinstance(it.args[0], ast.Call) and isinstance(it.args[0].func, ast.Name) and it.args[0].func.id == 'list' \
+                and len(it.args[0].args) == 1 and isinstance(it.args[0].args[0], ast.Call) \
+                and isinstance(it.args[0].args[0].func, ast.Name) and it.args[0].args[0].func.id == 'enumerate' \
+                and len(it.args[0].args[0].args) == 1 and isinstance(it.args[0].args[0].args[0], (ast.Name, ast.Attribute)) \
+                and isinstance(s.target, ast.Tuple) and len(s.target.elts) == 2 and all(isinstance(t, ast.Name) for t in s.target.elts):
+            # for i, x in reversed(list(enumerate(xs)))  ==  for i in range(len(xs) - 1, -1, -1): x = xs[i]
+            xs = it.args[0].args[0].args[0]
+            i_, x_ = s.target.elts
+            rng = ast.parse('range(len(%s) - 1, -1, -1)' % ast.unparse(xs), mode='eval').body
+            s2 = ast.For(target=ast.Name(id=i_.id, ctx=ast.Store()), iter=rng,
+                         body=[ast.Assign(targets=[ast.Name(id=x_.id, ctx=ast.Store())],
+                                          value=ast.Subscript(value=xs, slice=ast.Name(id=i_.id, ctx=ast.Load()), ctx=ast.Load()),
+                                          lineno=s.lineno)] + s.body, orelse=[])
+            ast.copy_location(s2, s)
+            ast.fix_missing_locations(s2)
+            if id(s) in self.loop_ord:
+                self.loop_ord[id(s2)] = self.loop_ord[id(s)]
+            return self.for_range(s2, st, k)
         if isinstance(it, ast.Subscript) and isinstance(it.slice, ast.Slice) and it.slice.lower is None and it.slice.step is None \
                 and it.slice.upper is not None and isinstance(it.value, ast.Name) and isinstance(s.target, ast.Name) \
                 and st.env.get(it.value.id) is not None and st.env[it.value.id].sort == 'IterArr':
